@@ -60,14 +60,17 @@ example : httpCursor [[1], [], [2, 3], []] = [2, 3] := by decide
 example : partition [10, 11, 12, 13, 14] 2 = [[10, 12, 14], [11, 13]] := by decide
 example : embeddedAssign 5 3 = [[0, 3], [1, 4], [2]] := by decide
 
-/-- **The cut.** For every history of split assignments, reads and checkpoint barriers of the runner loop in one
-deployment of a runner (a redeployment of a live runner is outside: D39, recorded under C01), in which no split is
+/-- **The cut** (partial: one deployment of a runner). Full statement: also across `HandleDeploy` on a live runner.
+Excluded: a redeployment of a live runner — the old loop and the old consumer of `outputStream` keep running next to
+the new ones (D39, open, recorded under C01), so reads and barriers are no longer one sequential history.
+For every history of split assignments, reads, dropped splits and checkpoint barriers of the runner loop in one
+deployment of a runner, in which no split is
 assigned to the reader twice (guaranteed by the splitters: `one_reader`, `partition_disjoint`, and a fresh reader per
 deployment): every checkpoint report `rep` sits at the position of its barrier on the output stream and, for every
 split `r` it reports: the reported position `r.cur` is the assigned position plus the number of the split's records
 ahead of the barrier, every record ahead of the barrier lies before the position and every record behind it at or
 after the position. -/
-theorem cursor_matches_cut (as : List RAct) (hd : (assignedIds as).Nodup) :
+theorem cursor_matches_cut_partial (as : List RAct) (hd : (assignedIds as).Nodup) :
     let st := rrun {} as
     ∀ rep ∈ st.reports,
       st.out[rep.pos]? = some (Ev.barrier rep.id) ∧
@@ -84,11 +87,12 @@ example :
     st.reports.map (fun r => (r.id, r.pos, r.snap.map fun x => (x.split, x.cur))) =
       [(1, 3, [(0, 2), (1, 6)]), (2, 6, [(0, 2), (1, 8)])] := by decide
 
-/-- **The cut with the Kinesis reader, also across failed reads.** For every history of records arriving in the
+/-- **The cut with the Kinesis reader, also across failed reads, expired iterators and shard ends** (partial: one
+deployment, as `cursor_matches_cut_partial`; D39). For every history of records arriving in the
 shards, shard assignments, `ReadEvents` calls of the round-robin Kinesis reader under `ReadSourceChannel` and the
 runner loop — any of which may fail with a retryable `GetRecords` error — and checkpoint barriers: the positions
 reported at a barrier cover exactly the records emitted before it. -/
-theorem cursor_matches_cut_kinesis (as : List KAct) (hd : (kAssignedIds as).Nodup) :
+theorem cursor_matches_cut_kinesis_partial (as : List KAct) (hd : (kAssignedIds as).Nodup) :
     let st := (krun {} as).r
     ∀ rep ∈ st.reports,
       st.out[rep.pos]? = some (Ev.barrier rep.id) ∧
@@ -98,20 +102,20 @@ theorem cursor_matches_cut_kinesis (as : List KAct) (hd : (kAssignedIds as).Nodu
         (∀ i ∈ recIdx r.split (st.out.drop rep.pos), r.cur ≤ i) := by
   intro st rep hrep
   obtain ⟨ras, h, e⟩ := krun_is_rrun as {}
-  have := cursor_matches_cut ras (e ▸ hd)
+  have := cursor_matches_cut_partial ras (e ▸ hd)
   simp only at this
   have hst : st = rrun {} ras := h
   rw [hst] at hrep ⊢
   exact this rep hrep
 
-/-- the hypothesis of `cursor_matches_cut` is necessary for readers that append: a split assigned twice is read
+/-- the hypothesis of `cursor_matches_cut_partial` is necessary for readers that append: a split assigned twice is read
 twice from the same position (what `one_reader` rules out) -/
 example :
     (rrun {} [.assign [(0, 0)], .assign [(0, 0)], .read [0]]).splits.map (fun x => (x.split, x.cur)) = [(0, 1), (0, 1)] := by
   decide
 
 /-- a read whose `GetRecords` fails moves no position and emits nothing (what the cut relies on) -/
-theorem failed_read_moves_nothing (k : KRd) (sp : RSplit) (hs : k.r.splits[k.idx]? = some sp) (hf : k.failIn = 1) :
+theorem failed_read_moves_nothing (k : KRd) (sp : RSplit) (hs : (activeOf k.r)[k.idx]? = some sp) (hf : k.failIn = 1) :
     (kstep k .read).1.r = k.r ∧ (kstep k .read).1.idx = k.idx ∧ (kstep k .read).2 = some none := by
   simp [kstep, hs, hf]
 
@@ -127,10 +131,25 @@ theorem dropped_read_breaks_cut :
     st.reports.map (fun r => r.snap.map fun x => (x.split, x.init, x.cur)) = [[(0, 0, 2)]] ∧
     recIdx 0 (st.out.take 0) = [] := by decide
 
+/-- **A split that reached its end.** When the reader drops a split (Kinesis: the shard ended, the job is notified and
+the shard leaves `assignedShards`) later checkpoint reports omit it (`rstep … (.barrier _)` reports the splits still
+held) and, for every history, no record of it is emitted after that moment: all its records are ahead of every later
+barrier, so there is nothing of it left to resume (before that moment it is reported like any other split,
+`cursor_matches_cut_partial`). -/
+theorem dropped_split_emits_nothing_more (as : List RAct) :
+    let st := rrun {} as
+    ∀ sp ∈ st.finished, sp.2 ≤ st.out.length ∧ recIdx sp.1 (st.out.drop sp.2) = [] :=
+  (FInv.run as {} ⟨by simp⟩).fin
+
+example :
+    let k := krun { limit := 2 } [.put 0 3, .put 1 1, .assign [(0, 0), (1, 0)], .close 0, .read, .read, .read, .barrier 1, .read]
+    k.r.out = [.record 0 0, .record 0 1, .record 1 0, .record 0 2, .barrier 1] ∧
+    k.r.finished = [(0, 4)] ∧ k.r.reports.map (fun r => r.snap.map fun x => (x.split, x.cur)) = [[(1, 1)]] := by decide
+
 /-- **A read is emitted atomically.** One `ReadEvents` of the loop — however many records it returns — appends exactly
 its records to the output stream and takes no checkpoint report: no barrier can fall between the first and the last
 record of a read, whose positions the reader has already passed (so a checkpoint requested while a read is being
-emitted is cut after the whole read; `cursor_matches_cut` then gives its reported positions). -/
+emitted is cut after the whole read; `cursor_matches_cut_partial` then gives its reported positions). -/
 theorem read_is_atomic (st : RSt) (batch : List Nat) :
     ∃ recs, (rstep st (.read batch)).out = st.out ++ recs ∧ (∀ e ∈ recs, ∀ n, e ≠ Ev.barrier n) ∧
       (rstep st (.read batch)).reports = st.reports :=
@@ -144,8 +163,10 @@ theorem uidx_lt (lo hi n : Nat) (hn : 0 < n) : uidx lo hi n < n := by
 
 `run keep s as` runs the splitter together with its stream for an arbitrary list of actions: a splitter (re)starting
 from the last checkpoint, discovery ticks, finish notifications for any ids in any order, checkpoints, and
-splits / merges of the stream. `keep = false` is the code as it is (after the repairs D16a/b/d); `keep = true` is the
-ideal splitter whose checkpoint also contains the withheld shards. `s.log` lists the shards handed out since the
+splits / merges of the stream. `run keep readd`: `keep` = the splitter checkpoint also contains the withheld shards
+(D16c repair), `readd` = a restart resumes shards with a reported position that were no longer assigned (D52 repair).
+The code as it is (HEAD, all of D16a/b/c/d, D52, D61 repaired) is `run true true`; `false` selects the old rules, kept
+for the counterexamples. `s.log` lists the shards handed out since the
 last (re)start; by `log_records_calls` it is exactly the content of the `AssignSplits` calls. -/
 
 theorem log_records_calls (keep readd : Bool) (s : Sp) (a : Act) :
@@ -164,7 +185,8 @@ theorem assigned_has_no_known_parent (keep readd : Bool) (shards runners : Nat) 
     ∀ sh ∈ s.tr.known, sh.id ∈ s.tr.assigned → ∀ p ∈ sh.parents, knownId s.tr.known p = false :=
   (Inv.run keep readd as _ (Inv.init shards runners)).W
 
-/-- **Children withheld** (ideal splitter): whenever a shard has been handed out, a finish notification for each of
+/-- **Children withheld** (the code as it is, `keep = true`: D16c repaired in /repo e1d3d29, the splitter checkpoint
+persists the shards that are known but withheld): whenever a shard has been handed out, a finish notification for each of
 its parents had been processed before — for every split/merge history and every checkpoint/restore placement. -/
 theorem children_withheld (readd : Bool) (shards runners : Nat) (as : List Act) :
     let s := run true readd (initSp shards runners) as
@@ -172,11 +194,12 @@ theorem children_withheld (readd : Bool) (shards runners : Nat) (as : List Act) 
   (Inv.run true readd as _ (Inv.init shards runners)).D
     (Clean.run readd as _ ⟨rfl, fun c hc => by simp [initSp] at hc⟩).t
 
-/-- **Children withheld, the code as it is** (partial, D16c open). Full statement: as `children_withheld` with
-`run false`. Proved under the exact excluded condition `tainted = false`: no restore so far used a checkpoint that
+/-- History (the rule before the D16c repair, `keep = false`: withheld shards were not persisted; witnesses
+`children_withheld_counterexample`, `assignable_is_assigned_counterexample`): children were withheld as long as
+`tainted = false`: no restore so far used a checkpoint that
 was taken while a withheld (known, unassigned) shard had an id below `LastAssignedShardId`
 (`Ckpt.good = false`), nor one taken after such a restore. -/
-theorem children_withheld_partial (readd : Bool) (shards runners : Nat) (as : List Act) :
+theorem children_withheld_old_rule (readd : Bool) (shards runners : Nat) (as : List Act) :
     let s := run false readd (initSp shards runners) as
     s.tainted = false →
     ∀ i ∈ s.log, ∀ sh : Shard, s.stream[i]? = some sh → ∀ p ∈ sh.parents, p ∈ s.done :=
@@ -239,7 +262,7 @@ theorem restore_resumes (keep readd : Bool) (shards runners : Nat) (as : List Ac
   have := step_log keep readd s .start
   simpa [step] using this
 
-/-- **Every reported position is resumed** (the code as it is, `keep = false`, after the D52 repair /repo c7455f1:
+/-- **Every reported position is resumed** (the code as it is, `keep = true`; the D52 repair /repo c7455f1:
 `resumeFinishedShards` re-adds shards which have a reported position but were no longer assigned when the splitter's
 part of the checkpoint was taken, `readd = true`; also for the ideal splitter that persists withheld shards). For every history: a restart hands out every shard of the stream for which the
 checkpoint holds a position, with that position, or the shard waits for a tracked parent. -/
@@ -277,11 +300,12 @@ theorem assignment_round_leaves_nothing_available (keep readd : Bool) (s : Sp) (
     (ha : a = .start ∨ a = .tick ∨ ∃ ids, a = .finish ids) : available (step keep readd s a).1.tr = [] := by
   rcases ha with rfl | rfl | ⟨ids, rfl⟩ <;> exact available_after_assign _
 
-/-- **No shard is left behind** (the code as it is; partial, D16c open). After a (re)start or a discovery tick —
+/-- **No shard is left behind**, general form for any `keep` (for `keep = false`, the rule before the D16c repair,
+the hypothesis is needed; `none_left_behind` is the statement about the code). After a (re)start or a discovery tick —
 both end with an assignment round — every shard of the stream is finished, has been handed out, or waits for a parent
 the tracker still tracks. Full statement: without the hypothesis. Excluded condition as in
-`children_withheld_partial`: the state after the step is untainted. -/
-theorem none_left_behind_partial (keep readd : Bool) (shards runners : Nat) (as : List Act) (a : Act)
+`children_withheld_old_rule`: the state after the step is untainted. -/
+theorem none_left_behind_untainted (keep readd : Bool) (shards runners : Nat) (as : List Act) (a : Act)
     (ha : a = .start ∨ a = .tick) :
     let s' := (step keep readd (run keep readd (initSp shards runners) as) a).1
     s'.tainted = false →
@@ -299,20 +323,20 @@ theorem none_left_behind_partial (keep readd : Bool) (shards runners : Nat) (as 
       rw [← ht]; exact this.symm
     exact round_complete _ hI ht'
 
-/-- **No shard is left behind** (ideal splitter): unconditional. -/
+/-- **No shard is left behind** (the code as it is, `keep = true`): unconditional. -/
 theorem none_left_behind (readd : Bool) (shards runners : Nat) (as : List Act) (a : Act) (ha : a = .start ∨ a = .tick) :
     let s' := (step true readd (run true readd (initSp shards runners) as) a).1
     ∀ (i : Nat) (sh : Shard), s'.stream[i]? = some sh →
       i ∈ s'.done ∨ i ∈ s'.log ∨ ∃ p ∈ sh.parents, knownId s'.tr.known p = true := by
   intro s'
   have hc : Clean (run true readd (initSp shards runners) as) := Clean.run readd as _ ⟨rfl, fun c hc => by simp [initSp] at hc⟩
-  exact none_left_behind_partial true readd shards runners as a ha (Clean.step readd _ hc a).t
+  exact none_left_behind_untainted true readd shards runners as a ha (Clean.step readd _ hc a).t
 
-/-- **Every assignable shard is assigned** (partial for the code as it is, D16c open; unconditional on taint for the
-ideal splitter by `Clean`). As long as finish notifications only name shards that were assigned (`wild = false`: what
+/-- **Every assignable shard is assigned**, general form for any `keep` (`assignable_is_assigned` is the statement
+about the code, `keep = true`, unconditional on taint by `Clean`). As long as finish notifications only name shards that were assigned (`wild = false`: what
 readers do), after a (re)start or a discovery tick every shard of the stream whose parents are all finished, and which
 is not finished itself, has been handed out. -/
-theorem assignable_is_assigned_partial (keep readd : Bool) (shards runners : Nat) (as : List Act) (a : Act)
+theorem assignable_is_assigned_untainted (keep readd : Bool) (shards runners : Nat) (as : List Act) (a : Act)
     (ha : a = .start ∨ a = .tick) :
     let s' := (step keep readd (run keep readd (initSp shards runners) as) a).1
     s'.tainted = false → s'.wild = false →
@@ -320,7 +344,7 @@ theorem assignable_is_assigned_partial (keep readd : Bool) (shards runners : Nat
   intro s' ht hw i sh hi hpar hnd
   have hI : Inv (run keep readd (initSp shards runners) as) := Inv.run keep readd as _ (Inv.init shards runners)
   have hT : Tame s' := Tame.step keep readd _ hI (Tame.run keep readd as _ (Inv.init shards runners) (Tame.init shards runners)) a
-  rcases none_left_behind_partial keep readd shards runners as a ha ht i sh hi with h1 | h1 | ⟨p, hp, hk⟩
+  rcases none_left_behind_untainted keep readd shards runners as a ha ht i sh hi with h1 | h1 | ⟨p, hp, hk⟩
   · exact absurd h1 hnd
   · exact h1
   · obtain ⟨t, hts, e⟩ := (knownId_iff _ _).mp hk
@@ -332,7 +356,7 @@ theorem assignable_is_assigned (readd : Bool) (shards runners : Nat) (as : List 
     ∀ (i : Nat) (sh : Shard), s'.stream[i]? = some sh → (∀ p ∈ sh.parents, p ∈ s'.done) → i ∉ s'.done → i ∈ s'.log := by
   intro s'
   have hc : Clean (run true readd (initSp shards runners) as) := Clean.run readd as _ ⟨rfl, fun c hc => by simp [initSp] at hc⟩
-  exact assignable_is_assigned_partial true readd shards runners as a ha (Clean.step readd _ hc a).t
+  exact assignable_is_assigned_untainted true readd shards runners as a ha (Clean.step readd _ hc a).t
 
 /-- **Recovery resumes the sources from the cut the operators restore.** For every history of completed checkpoints
 (snapshot write finished at once or still in flight), late publications and (re)deployments — including a publication
@@ -355,7 +379,7 @@ list was read under the mutex and the id afterwards without it, so an assignment
 whose id covered shards missing from its list). -/
 theorem checkpoint_is_one_locked_read : Facts.c16CheckpointOneLockedRead = 1 := by decide
 
-/-! ### non-vacuity and the open finding -/
+/-! ### non-vacuity and the witnesses of the repaired findings -/
 
 /-- a small stream: shard 0 → 2,3; shard 1 → 4,5; later shard 2 → 6,7 -/
 def witness : List Act :=
@@ -368,7 +392,7 @@ example : (restart true true (run true true (initSp 2 2) (witness.take 7))).2 = 
 example : (restart false true (run false true (initSp 2 2) (witness.take 7))).2 =
     [[(0, 7, 0), (0, 6, 0), (0, 0, 7), (1, 4, 9), (1, 5, 0)]] := by decide
 
-/-- D16c on the model of the code as it is: after the restore the grandchildren 6,7 of the unfinished shard 0 are
+/-- D16c on the model of the code before the repair (`keep = false`): after the restore the grandchildren 6,7 of the unfinished shard 0 are
 handed out although their parent 2 was never read (and 2,3 are lost) -/
 theorem children_withheld_counterexample :
     let s := run false true (initSp 2 2) witness
